@@ -2231,8 +2231,31 @@ func ruleResetProgress(e *Engine, r *Report) {
 		}
 		n++
 		fresh, zeroed := false, false
+		// the map updated: the field itself, or a parameter of a helper that fn calls with the field
+		isMemberMap := func(m ssa.Value) bool {
+			if fieldV(fld)(m) {
+				return true
+			}
+			pm, ok := m.(*ssa.Parameter)
+			if !ok {
+				return false
+			}
+			idx := -1
+			for i, q := range pm.Parent().Params {
+				if q == pm {
+					idx = i
+				}
+			}
+			okc := false
+			for _, cs := range e.SitesIn(fn, pm.Parent()) {
+				if idx >= 0 && idx < len(cs.Common().Args) && fieldV(fld)(cs.Common().Args[idx]) {
+					okc = true
+				}
+			}
+			return okc
+		}
 		e.forEachInstrRegion(fn, 1, func(in ssa.Instruction) {
-			if mu, ok := in.(*ssa.MapUpdate); ok && fieldV(fld)(mu.Map) {
+			if mu, ok := in.(*ssa.MapUpdate); ok && isMemberMap(mu.Map) {
 				if _, isAlloc := stripConv(mu.Value).(*ssa.Alloc); isAlloc {
 					fresh = true
 				}
@@ -3008,12 +3031,15 @@ func ruleReplaySetsState(e *Engine, r *Report) {
 // snapshot is taken from the applied state, the log continues past it.
 func ruleSnapshotRecordKeepsLogEnd(e *Engine, r *Report) {
 	ss := r.need("(*internal/logdb.db).saveSnapshots")
-	smi := r.need("(*internal/logdb.db).setMaxIndex")
-	if ss == nil || smi == nil {
+	// the writers of the max index: the cache setter and the KV put (db.setMaxIndex is a
+	// wrapper around both and may be inlined)
+	cs := r.need("(*internal/logdb.cache).setMaxIndex")
+	put := r.need("(*internal/logdb.db).saveMaxIndex")
+	if ss == nil || cs == nil || put == nil {
 		return
 	}
 	reach := e.Reach([]*ssa.Function{ss}, nil)
-	r.check(!reach[smi], "WMC-maxindex-writers", "db.setMaxIndex is not reachable from db.saveSnapshots", e.pos(ss.Pos()),
+	r.check(!reach[cs] && !reach[put], "WMC-maxindex-writers", "no writer of the max index is reachable from db.saveSnapshots", e.pos(ss.Pos()),
 		"the logical end of the log is unchanged by a local snapshot record", "recording a local snapshot now rewrites the max-index record: entries persisted beyond the snapshot index are no longer returned after a restart")
 }
 
@@ -3200,7 +3226,7 @@ func ruleExternalFileSize(e *Engine, r *Report) {
 		return
 	}
 	n := 0
-	forEachInstr(pf, func(in ssa.Instruction) {
+	e.forEachInstrRegion(pf, 1, func(in ssa.Instruction) {
 		st, ok := in.(*ssa.Store)
 		if !ok {
 			return
@@ -3293,7 +3319,10 @@ func rulePoisonBlocking(e *Engine, r *Report) {
 // included): entries are handed out for apply only after they were handed
 // out for persistence.
 func ruleUpdateCarriesEntriesToSave(e *Engine, r *Report) {
-	gu := r.need("(*internal/raft.Peer).getUpdate")
+	gu := r.helper("(*internal/raft.Peer).getUpdate")
+	if gu == nil {
+		gu = r.need("(*internal/raft.Peer).GetUpdate") // builder inlined into the exported entry
+	}
 	ets := r.need("(*internal/raft.entryLog).entriesToSave")
 	fld := r.needField("raftpb", "Update", "EntriesToSave")
 	if gu == nil || ets == nil || fld == nil {
@@ -3331,7 +3360,7 @@ func ruleFirstIndexSnapshotFirst(e *Engine, r *Report) {
 		fromReader := e.dependsOn(retOperand(ret, 0), func(v ssa.Value) bool {
 			c, ok := v.(*ssa.Call)
 			return ok && e.IsMethodCall(c, gr)
-		}, 0)
+		}, 1)
 		if !fromReader {
 			return
 		}
@@ -3368,19 +3397,10 @@ func ruleImportedAlwaysRecovered(e *Engine, r *Report) {
 		r.undecided("GD-imported-recovered", fname(rr), "initial-recovery flag parameter not found")
 		return
 	}
-	exempt := reqAny("not the initial recovery, or not an imported snapshot",
-		reqBool("", func(v ssa.Value) bool { return v == ssa.Value(initP) }, false),
-		reqBool("", fieldV(imp), false))
-	res := e.pathUnless(rr, nil, func(in ssa.Instruction) bool {
-		ret, ok := in.(*ssa.Return)
-		if !ok {
-			return false
-		}
-		cb, isC := isConstBool(retOperand(ret, 0))
-		return !(isC && cb)
-	}, nil, exempt)
-	r.check(!res.Found, "GD-imported-recovered", "recoverRequired answers true for an imported snapshot on initial recovery", e.pos(rr.Pos()),
-		"no path with (init, Imported) returns anything but true", "an imported snapshot can be skipped on the initial recovery of an on-disk state machine: the replica keeps its old state under the imported index and membership", res.Trace(e)...)
+	r.returnsOnlyUnder("GD-imported-recovered", "recoverRequired answers false", rr, 0, false, nil,
+		reqAny("not the initial recovery, or not an imported snapshot",
+			reqBool("", func(v ssa.Value) bool { return v == ssa.Value(initP) }, false),
+			reqBool("", fieldV(imp), false)))
 }
 
 // ruleTanRemoveAllFirst (C09, C20): when a node's data is removed from a Tan
